@@ -94,6 +94,8 @@ def run(ctx):
             return ctx.finish()
     ctx.build_lib()
     h = ctx.build_harness('h_ring')
+    if os.environ.get('VERIF_C07_HARNESS'):      # mutation experiments: a harness binary compiled against a mutated copy of the header
+        h = os.environ['VERIF_C07_HARNESS']
     modes = MODES_Q if quick else MODES_T
     seeds = [ctx.seed] if quick else [ctx.seed, ctx.seed + 1000]
     kinds, styles, settles, tampered, allrows = {}, {}, 0, None, []
